@@ -30,6 +30,13 @@ def isNilLike : Val → Bool
   | .nil => true
   | _ => false
 
+/-- `runtime.isNil`: the untyped nil and the nil values of reference kinds the universe can tell apart
+    (a nil `map[string]T`) -/
+def isNilRef : Val → Bool
+  | .nil => true
+  | .tmap _ n _ => n
+  | _ => false
+
 mutual
 /-- `reflect.DeepEqual` on the universe: identical dynamic types and equal contents. -/
 def deepEq : Val → Val → Bool
@@ -41,6 +48,7 @@ def deepEq : Val → Val → Bool
   | .str a, .str b => a == b
   | .arr t xs, .arr t' ys => t == t' && deepEqList xs ys
   | .map xs, .map ys => deepEqKvs xs ys
+  | .tmap z n xs, .tmap z' n' ys => deepEq z z' && n == n' && deepEqKvs xs ys   -- same element type, both nil or neither
   | .set t xs, .set t' ys => t == t' && deepEqList xs ys
   | .struct n p xs, .struct n' p' ys => n == n' && p == p' && deepEqKvs xs ys
   | .fn _, .fn _ => false           -- DeepEqual on non-nil funcs is false
@@ -63,7 +71,7 @@ end Val
 def equalV (a b : Val) : Bool :=
   match refSem .equal a b with
   | .ok (.bool r) => r
-  | _ => (a.isNilLike && b.isNilLike) || Val.deepEq a b
+  | _ => (a.isNilRef && b.isNilRef) || Val.deepEq a b
 
 /-- the ordered / arithmetic helpers: a missing arm is a type error -/
 def binHelper (h : Helper) (a b : Val) : R Val :=
@@ -116,6 +124,11 @@ def fetchV (fromV i : Val) (nilsafe : Bool) : R Val :=
     match i with
     | .str k => .ok ((lookupKv k kvs).getD .nil)
     | _ => .error .type_          -- reflect: key of the wrong type / invalid key
+  | .tmap z _ kvs =>
+    -- `reflect.Zero(v.Type().Elem())` for a missing key (and for every key of a nil map)
+    match i with
+    | .str k => .ok ((lookupKv k kvs).getD z)
+    | _ => .error .type_
   | .set t _ =>
     -- map[K]struct{}: present or not, the element is the empty struct; a key of another type is a reflect panic
     if elemTMatches t i && !i.isNilLike then .ok (.struct "struct {}" false []) else .error .type_
@@ -165,6 +178,10 @@ def inV (needle array : Val) : R Bool :=
     match needle with
     | .str k => .ok ((lookupKv k kvs).isSome)
     | _ => .error .type_
+  | .tmap _ _ kvs =>
+    match needle with
+    | .str k => .ok ((lookupKv k kvs).isSome)
+    | _ => .error .type_
   | .set t ks =>
     if elemTMatches t needle && !needle.isNilLike then .ok (ks.any fun k => Val.deepEq k needle)
     else .error .type_
@@ -177,6 +194,7 @@ def inV (needle array : Val) : R Bool :=
 def lengthV : Val → R Int
   | .arr _ xs => .ok xs.length
   | .map kvs => .ok kvs.length
+  | .tmap _ _ kvs => .ok kvs.length
   | .set _ ks => .ok ks.length
   | .str s => .ok (strBytes s).length
   | _ => .error .type_
